@@ -468,24 +468,16 @@ Example C19_gcp_opt_ex : guard_gcp_opt [3; 2] 2 (InitK [3; 2] 2) true = Ok tt /\
 Proof. repeat split; reflexivity. Qed.
 
 (* ---- wave 4: further operations ---- *)
-(* sptensor.innerprod(other), other a Kruskal / Tucker tensor: a receiver that stores no entry answers 0 before the shapes are
-   compared (C19-N21, open; repair proposed in fixes/C19-N21.diff); exact for a receiver with entries; the answered set is exactly
-   "no entry stored, or equal shapes" *)
-Theorem C19_sptensor_innerprod_kt_refuted : ~ sptensor_innerprod_kt_stmt.
-Proof. exact sptensor_innerprod_kt_refuted. Qed.
-Print Assumptions C19_sptensor_innerprod_kt_refuted.
-Theorem C19_sptensor_innerprod_kt_partial : forall s u,
-  guard_sptensor_innerprod_kt s false u = decide (pre_sptensor_innerprod s false u).
-Proof. exact sptensor_innerprod_kt_partial. Qed.
-Print Assumptions C19_sptensor_innerprod_kt_partial.
-Theorem C19_sptensor_innerprod_kt_exact : forall s e u, guard_sptensor_innerprod_kt s e u = decide (e || shape_eqb s u).
-Proof. exact sptensor_innerprod_kt_exact. Qed.
-Print Assumptions C19_sptensor_innerprod_kt_exact.
+(* sptensor.innerprod(other), other a Kruskal / Tucker tensor (C19-N21 repaired in 76fa98e: the shape comparison precedes the
+   "all entries are zero" early return): rejected exactly when the shapes differ, whether or not the receiver stores an entry.
+   The Example's third instance is the witness of C19-N21 *)
+Theorem C19_sptensor_innerprod_kt : forall s e u, guard_sptensor_innerprod_kt s e u = decide (pre_sptensor_innerprod s e u).
+Proof. exact sptensor_innerprod_kt_decides. Qed.
+Print Assumptions C19_sptensor_innerprod_kt.
 Example C19_sptensor_innerprod_kt_ex : guard_sptensor_innerprod_kt [2; 3] false [2; 3] = Ok tt /\ guard_sptensor_innerprod_kt [2; 3] false [3; 2] = Err
-  /\ guard_sptensor_innerprod_kt [2; 3] true [3; 2] = Ok tt.
+  /\ guard_sptensor_innerprod_kt [2; 3] true [3; 2] = Err /\ guard_sptensor_innerprod_kt [2; 3] true [2; 3] = Ok tt.
 Proof. repeat split; reflexivity. Qed.
-(* sptensor.contract / sptensor.nvecs: guard models of the code AS REPAIRED by fixes/C19-N22.diff / fixes/C19-N23.diff (today negative
-   modes wrap around in contract and nvecs ignores a mode that does not exist: C19-N22 / C19-N23, open) *)
+(* sptensor.contract / sptensor.nvecs: the range tests of db95721 / 453f75b (C19-N22 / C19-N23 repaired) *)
 Theorem C19_sptensor_contract : forall s i1 i2, guard_sptensor_contract s i1 i2 = decide (pre_tensor_contract s i1 i2).
 Proof. exact sptensor_contract_decides. Qed.
 Print Assumptions C19_sptensor_contract.
@@ -496,25 +488,19 @@ Example C19_sptensor_contract_ex : guard_sptensor_contract [3; 2; 3] 0 2 = Ok tt
   /\ guard_sptensor_contract [3; 2; 3] (-3) 2 = Err /\ guard_sptensor_contract [3; 3] (-2) 0 = Err /\ guard_sptensor_nvecs [2; 3] 2 = Err
   /\ guard_sptensor_nvecs [2; 3] 1 = Ok tt.
 Proof. repeat split; reflexivity. Qed.
-(* sptensor.scale(factor, dims) over the generated tt_dimscheck: a receiver that stores no entry answers before the factor's shape is
-   compared (C19-N24, open; repair proposed in fixes/C19-N24.diff); exact for a receiver with entries; the answered set exactly *)
-Theorem C19_sptensor_scale_refuted : ~ sptensor_scale_stmt.
-Proof. exact sptensor_scale_refuted. Qed.
-Print Assumptions C19_sptensor_scale_refuted.
-Theorem C19_sptensor_scale_partial : forall s f d, guard_sptensor_scale s false f d = decide (pre_sptensor_scale s false f d).
-Proof. exact sptensor_scale_partial. Qed.
-Print Assumptions C19_sptensor_scale_partial.
-Theorem C19_sptensor_scale_exact : forall s e f d,
-  guard_sptensor_scale s e f d = decide (modes_ok (ndim s) d && (e || shape_eqb f (pickz s (np_sort d)))).
-Proof. exact sptensor_scale_exact. Qed.
-Print Assumptions C19_sptensor_scale_exact.
+(* sptensor.scale(factor, dims) over the generated tt_dimscheck (C19-N24 repaired in d89c921: a receiver that stores no entry
+   compares the factor's shape before it returns its copy): rejected exactly when a mode argument is bad or the factor does not
+   have the sizes of the listed modes.  The Example's third instance is of the class of C19-N24 *)
+Theorem C19_sptensor_scale : forall s e f d, guard_sptensor_scale s e f d = decide (pre_sptensor_scale s e f d).
+Proof. exact sptensor_scale_decides. Qed.
+Print Assumptions C19_sptensor_scale.
 Example C19_sptensor_scale_ex : guard_sptensor_scale [2; 3; 4] false [4; 2] [2; 0] = Err /\ guard_sptensor_scale [2; 3; 4] false [2; 4] [2; 0] = Ok tt
-  /\ guard_sptensor_scale [2; 3; 4] true [4; 2] [2; 0] = Ok tt /\ guard_sptensor_scale [2; 3; 4] true [2; 4] [2; 2] = Err.
+  /\ guard_sptensor_scale [2; 3; 4] true [4; 2] [2; 0] = Err /\ guard_sptensor_scale [2; 3; 4] true [2; 4] [2; 2] = Err
+  /\ guard_sptensor_scale [2; 3] true [5] [0] = Err /\ guard_sptensor_scale [2; 3; 4] true [2; 4] [2; 0] = Ok tt.
 Proof. repeat split; reflexivity. Qed.
-(* ktensor.update(modes, data) (in place; C19-N25, open: today a request that fails at a later block has already overwritten the
-   earlier ones, modes below -1 wrap around and repeated modes are accepted): the guard model of the code AS REPAIRED by
-   fixes/C19-N25.diff (sortedness test, validation loop adding up the needed length, length test — all before the first
-   assignment) rejects exactly when the precondition fails *)
+(* ktensor.update(modes, data) (in place; C19-N25 repaired in b9311d6): the guard model of the validation pass (sortedness test with
+   "<", validation loop adding up the needed length, length test — all before the first assignment) rejects exactly when the
+   precondition fails.  Props/C19W5K.v states the same over the method as generated from ktensor.py, second pass included *)
 Theorem C19_ktensor_update : forall s R modes dlen, guard_ktensor_update s R modes dlen = decide (pre_ktensor_update s R modes dlen).
 Proof. exact ktensor_update_decides. Qed.
 Print Assumptions C19_ktensor_update.
@@ -523,7 +509,7 @@ Example C19_ktensor_update_ex : guard_ktensor_update [2; 3] 2 [-1; 0; 1] 12 = Ok
   /\ guard_ktensor_update [2; 3] 2 [1; 0] 10 = Err /\ guard_ktensor_update [2; 3] 2 [1] 7 = Ok tt.
 Proof. repeat split; reflexivity. Qed.
 (* X.mask(W) for dense, sparse and Kruskal receivers: the mask has the order of the receiver and no mode of it is longer
-   (tensor.mask: the code as repaired by fixes/C19-N26.diff; C19-N26, open: today a 1-way mask is broadcast against every mode) *)
+   (tensor.mask compares the orders since 553ad5e: C19-N26 repaired) *)
 Theorem C19_mask : forall s w, guard_mask s w = decide (pre_mask s w).
 Proof. exact mask_decides. Qed.
 Print Assumptions C19_mask.
